@@ -32,12 +32,17 @@ func main() {
 			}
 			params = append(params, v)
 		}
+		genDocCommands()
+		defer cleanupGen()
 		prog, lt := loadProgram(os.Args[2])
 		fmt.Printf("load+ssa %.1fs\n", lt.Seconds())
 		cfg := &JobCfg{Property: "debug", Name: os.Args[3], Pkg: os.Args[2], Func: os.Args[3], Params: params, Known: map[string]KnownFinding{}}
 		nw := 16
 		if v := os.Getenv("GOSYM_WORKERS"); v != "" {
 			nw, _ = strconv.Atoi(v)
+		}
+		if v := os.Getenv("GOSYM_SUMHASH"); v != "" {
+			cfg.Redirect = map[string]string{"rcproxy/core/pkg/hashkit.Hash": "rcproxy/core.VerifSpecHash"}
 		}
 		if os.Getenv("GOSYM_NOIFCONV") != "" {
 			cfg.NoIfConv = true
@@ -69,9 +74,15 @@ func main() {
 			fmt.Println()
 		}
 	case "check":
-		os.Exit(cmdCheck(os.Args[2:]))
+		genDocCommands()
+		rc := cmdCheck(os.Args[2:])
+		cleanupGen()
+		os.Exit(rc)
 	case "replay":
-		os.Exit(cmdReplay(os.Args[2:]))
+		genDocCommands()
+		rc := cmdReplay(os.Args[2:])
+		cleanupGen()
+		os.Exit(rc)
 	default:
 		usage()
 	}
